@@ -545,6 +545,263 @@ func runSlice(c sliceCase, r *pb.Rec) error {
 	return nil
 }
 
+// ---------------------------------------------------------------- large populations and capacities
+
+type bigCase struct {
+	Kind   int // 0 New(cap)+Push, 1 Heap.Init(slice), 2 FromSlice, 3 NewSlice(cap)+Push, 4 generic Init on a plain container
+	N      int // initial population
+	Cap    int // requested capacity (kinds 0 and 3)
+	Order  int
+	Seed   uint64
+	Span   int // values 0..Span-1
+	Pops   int // percentage of the population popped in the first drain phase
+	Touch  int // handles removed / fixed (kinds 0, 1), indices removed / fixed (kinds 2, 3, 4)
+	Pushes int // pushes after the first drain phase
+}
+
+func genBig(t *rapid.T) bigCase {
+	return bigCase{Kind: rapid.IntRange(0, 4).Draw(t, "kind"),
+		N:     rapid.OneOf(rapid.IntRange(0, 64), rapid.SampledFrom([]int{255, 256, 257, 1023, 1024, 1025, 4095, 4096, 4097, 8192}), rapid.IntRange(500, 9000)).Draw(t, "n"),
+		Cap:   rapid.SampledFrom([]int{0, 1, 16, 1023, 1024, 2048, 4096, 20000}).Draw(t, "cap"),
+		Order: rapid.IntRange(0, len(orders)-1).Draw(t, "order"), Seed: rapid.Uint64().Draw(t, "seed"),
+		Span: rapid.SampledFrom([]int{2, 40, 1000, 1 << 30}).Draw(t, "span"), Pops: rapid.SampledFrom([]int{0, 10, 50, 75, 90, 99, 100}).Draw(t, "pops"),
+		Touch: rapid.IntRange(0, 60).Draw(t, "touch"), Pushes: rapid.OneOf(rapid.IntRange(0, 20), rapid.IntRange(0, 3000)).Draw(t, "pushes")}
+}
+
+func runBig(c bigCase, r *pb.Rec) error {
+	if c.Kind < 0 || c.Kind > 4 || c.N < 0 || c.N > 20000 || c.Cap < 0 || c.Cap > 50000 || c.Order < 0 || c.Order >= len(orders) || c.Span < 1 || c.Pushes > 20000 || c.Touch > 1000 {
+		return nil
+	}
+	less := orders[c.Order]
+	st := c.Seed | 1
+	rnd := func(n int) int {
+		st ^= st << 13
+		st ^= st >> 7
+		st ^= st << 17
+		return int(st % uint64(n))
+	}
+	id := 0
+	mk := func() val { id++; return val{A: rnd(c.Span), B: rnd(3), ID: id} }
+	init := make([]val, c.N)
+	for i := range init {
+		init[i] = mk()
+	}
+	// reference: the same multiset in container/heap under the same order
+	ref := &plainStd{plain{less: less}}
+	model := map[int]val{}
+	add := func(v val) { stdheap.Push(ref, v); model[v.ID] = v }
+	// uniform view of the five forms
+	var (
+		push   func(v val)
+		pop    func() (val, bool)
+		length func() int
+		order  func() error
+		h      heapz.Heap[val]
+		sl     heapz.Slice[val]
+		pl     *plain
+		hs     = map[int]*heapz.Element[val]{}
+	)
+	switch c.Kind {
+	case 0, 1:
+		if c.Kind == 0 {
+			h = heapz.New[val](c.Cap, less)
+			for _, v := range init {
+				hs[v.ID] = h.Push(v)
+			}
+		} else {
+			h.Init(append([]val(nil), init...), less)
+		}
+		push = func(v val) { hs[v.ID] = h.Push(v) }
+		pop = func() (val, bool) {
+			e := h.Pop()
+			if e == nil {
+				return val{}, false
+			}
+			if e.Index() != -1 {
+				return e.Value, false
+			}
+			return e.Value, true
+		}
+		length = h.Len
+		order = func() error { return nil }
+	case 2, 3:
+		if c.Kind == 2 {
+			sl = heapz.FromSlice(append([]val(nil), init...), less)
+		} else {
+			sl = heapz.NewSlice[val](c.Cap, less)
+			for _, v := range init {
+				sl.Push(v)
+			}
+		}
+		push, pop, length = sl.Push, sl.Pop, sl.Len
+		order = func() error { return heapOrdered(sl.Values, less) }
+	default:
+		pl = &plain{vs: append([]val(nil), init...), less: less}
+		heapz.Init[val](pl)
+		push = func(v val) { heapz.Push[val](pl, v) }
+		pop = func() (val, bool) {
+			if pl.Len() == 0 {
+				return val{}, false
+			}
+			return heapz.Pop[val](pl).(val), true
+		}
+		length = pl.Len
+		order = func() error { return heapOrdered(pl.vs, less) }
+	}
+	for _, v := range init {
+		add(v)
+	}
+	where := fmt.Sprintf("kind %d, %d initial elements, cap %d, order %d, span %d", c.Kind, c.N, c.Cap, c.Order, c.Span)
+	if err := order(); err != nil {
+		return fmt.Errorf("%s: after construction: %v", where, err)
+	}
+	popCheck := func(phase string, k int) error {
+		for i := 0; i < k; i++ {
+			got, ok := pop()
+			if !ok {
+				return fmt.Errorf("%s: %s: Pop #%d failed with %d elements held (or the popped handle still reports an index)", where, phase, i+1, len(model))
+			}
+			want := stdheap.Pop(ref).(val)
+			if less(want, got) {
+				return fmt.Errorf("%s: %s: Pop #%d returned %+v although %+v precedes it", where, phase, i+1, got, want)
+			}
+			if less(got, want) {
+				return fmt.Errorf("HARNESS: reference heap returned %+v although %+v precedes it", want, got)
+			}
+			m, present := model[got.ID]
+			if !present || m != got {
+				return fmt.Errorf("%s: %s: Pop #%d returned %+v which is not held (duplicated or invented)", where, phase, i+1, got)
+			}
+			delete(model, got.ID)
+			if got.ID != want.ID { // same priority class, another element: keep the reference in step
+				for j, x := range ref.vs {
+					if x.ID == got.ID {
+						ref.vs[j] = want
+						stdheap.Fix(ref, j)
+						break
+					}
+				}
+			}
+			if length() != len(model) {
+				return fmt.Errorf("%s: %s: Len = %d after Pop #%d, %d elements held", where, phase, length(), i+1, len(model))
+			}
+		}
+		return order()
+	}
+	if err := popCheck("first drain", len(model)*c.Pops/100); err != nil {
+		return err
+	}
+	// remove / fix somewhere inside
+	for i := 0; i < c.Touch && len(model) > 0; i++ {
+		switch {
+		case c.Kind <= 1 && len(hs) > 0:
+			// pick a live handle (kind 1 has none until learned: skip)
+			var e *heapz.Element[val]
+			if k := 1 + rnd(id); hs[k] != nil { // ids are 1..id; deterministic choice (no map iteration)
+				if _, live := model[k]; live {
+					e = hs[k]
+				}
+			}
+			if e == nil || e.Index() < 0 {
+				continue
+			}
+			v := e.Value
+			if i%2 == 0 {
+				h.Remove(e)
+				delete(model, v.ID)
+				delete(hs, v.ID)
+				for j, x := range ref.vs {
+					if x.ID == v.ID {
+						stdheap.Remove(ref, j)
+						break
+					}
+				}
+				if e.Index() != -1 {
+					return fmt.Errorf("%s: removed handle reports Index %d", where, e.Index())
+				}
+			} else {
+				nv := val{A: rnd(c.Span), B: v.B, ID: v.ID}
+				e.Value = nv
+				h.Fix(e)
+				model[v.ID] = nv
+				for j, x := range ref.vs {
+					if x.ID == v.ID {
+						ref.vs[j] = nv
+						stdheap.Fix(ref, j)
+						break
+					}
+				}
+			}
+		case c.Kind == 2 || c.Kind == 3:
+			j := rnd(sl.Len())
+			v := sl.Values[j]
+			if i%2 == 0 {
+				got, ok := sl.Remove(j)
+				if !ok || got != v {
+					return fmt.Errorf("%s: Slice.Remove(%d) = %+v,%v want %+v", where, j, got, ok, v)
+				}
+				delete(model, v.ID)
+				for k, x := range ref.vs {
+					if x.ID == v.ID {
+						stdheap.Remove(ref, k)
+						break
+					}
+				}
+			} else {
+				nv := val{A: rnd(c.Span), B: v.B, ID: v.ID}
+				sl.Values[j] = nv
+				sl.Fix(j)
+				model[v.ID] = nv
+				for k, x := range ref.vs {
+					if x.ID == v.ID {
+						ref.vs[k] = nv
+						stdheap.Fix(ref, k)
+						break
+					}
+				}
+			}
+		case c.Kind == 4:
+			j := rnd(pl.Len())
+			v := pl.vs[j]
+			if got := heapz.Remove[val](pl, j).(val); got != v {
+				return fmt.Errorf("%s: generic Remove(%d) = %+v want %+v", where, j, got, v)
+			}
+			delete(model, v.ID)
+			for k, x := range ref.vs {
+				if x.ID == v.ID {
+					stdheap.Remove(ref, k)
+					break
+				}
+			}
+		}
+		if length() != len(model) {
+			return fmt.Errorf("%s: Len = %d after Remove/Fix, %d elements held", where, length(), len(model))
+		}
+	}
+	if err := order(); err != nil {
+		return fmt.Errorf("%s: after Remove/Fix: %v", where, err)
+	}
+	for i := 0; i < c.Pushes; i++ {
+		v := mk()
+		push(v)
+		add(v)
+	}
+	if length() != len(model) {
+		return fmt.Errorf("%s: Len = %d after %d pushes, %d elements held", where, length(), c.Pushes, len(model))
+	}
+	if err := popCheck("final drain", len(model)); err != nil {
+		return err
+	}
+	if _, ok := pop(); ok || length() != 0 {
+		return fmt.Errorf("%s: drained heap: Pop succeeded or Len = %d", where, length())
+	}
+	r.ClassIf(c.N >= 4096, ">= 4096 elements at construction")
+	r.ClassIf((c.Kind == 0 || c.Kind == 3) && c.Cap >= 1024 && c.N*4 <= c.Cap && c.N >= 2, "capacity >= 1024 at most a quarter full")
+	r.ClassIf(c.N >= 1024 && c.Pops >= 90, "large heap drained below a quarter")
+	r.NonTrivialIf(c.N >= 256)
+	return nil
+}
+
 // ---------------------------------------------------------------- generic Init/Push/Pop/Remove/Fix over caller-supplied containers
 
 // plain slice container
@@ -783,6 +1040,9 @@ func init() {
 	pb.Register("slice_heap", pb.Options{Base: 10000, Required: []string{"index out of range", "push during PopAll"},
 		Rule: "FromSlice of 0..8 values then <= 60 Push/Pop/Peek/Remove(i)/Fix(i)/PopAll with i in -1..12; oracle: multiset model by element id, !less(child,parent) over Values and Len after every call; non-trivial = Remove/Fix at an inner index of >= 4 elements"},
 		genSlice, runSlice)
+	pb.Register("heap_large", pb.Options{Base: 250, Required: []string{">= 4096 elements at construction", "capacity >= 1024 at most a quarter full", "large heap drained below a quarter"},
+		Rule: "the five forms (New+Push, Heap.Init, FromSlice, NewSlice+Push, generic Init on a caller container) with 0..9000 initial elements (sizes around 256/1024/4096/8192 sampled), requested capacities 0..20000, value spans 2..2^30, a first drain of 0..100%, up to 60 Remove/Fix by handle or index, up to 3000 further pushes, final drain; oracle: container/heap on the same multiset under the same order (no remaining element precedes the popped one, element identity by id, Len after every Pop), heap order of Values after each phase; non-trivial = >= 256 initial elements"},
+		genBig, runBig)
 	pb.Register("generic_interface", pb.Options{Base: 8000,
 		Rule: "the generic Init/Push/Pop/Remove/Fix over a plain slice container and an index-tracking container, in lock step with container/heap on the same sequence; oracle: heap order after every call, index bookkeeping, equal multisets, popped values in the same priority class as container/heap's; non-trivial = Remove/Fix at an inner index of >= 4 elements"},
 		genSlice, runGeneric)
